@@ -185,7 +185,8 @@ class Module(nn.Module):
 
             elif isinstance(val, float):
                 constraint = self.constraint_for_parameter_name(name)
-                if constraint is not None and not constraint.check_raw(val):
+                raw_val = torch.as_tensor(val, dtype=self.__getattr__(name).dtype, device=self.__getattr__(name).device)
+                if constraint is not None and not constraint.check_raw(raw_val):
                     raise RuntimeError(
                         "Attempting to manually set a parameter value that is out of bounds of "
                         f"its current constraints, {constraint}. "
